@@ -109,7 +109,8 @@ def mypy_expression_to_sds_type(expr: mp_nodes.Expression) -> sds_types.Abstract
     elif isinstance(expr, mp_nodes.UnaryExpr):
         return mypy_expression_to_sds_type(expr.expr)
 
-    raise TypeError("Unexpected expression type.")  # pragma: no cover
+    # Any other expression (operators, calls, containers, comprehensions, ...) has no type we could infer here
+    return sds_types.UnknownType()
 
 
 def mypy_expression_to_python_value(
